@@ -447,9 +447,131 @@ pub fn sweep_cases() -> Vec<Case> {
     v
 }
 
+/// A command file that loses its x bit *during* the run (an earlier executable strips it).
+#[derive(Debug, Clone, Serialize, Deserialize)]
+pub struct ChmodCase {
+    pub config: ConfigSpec,
+    pub ncmd: usize,
+    /// position of the victim and of the actor among the planned (command, group, target) entries
+    pub victim: u16,
+    pub actor: u16,
+    pub symlink: bool,
+}
+
+pub fn chmod_strategy() -> impl Strategy<Value = ChmodCase> {
+    (vec(1usize..=3, 2..=3), vec(any::<u16>(), 8), 1usize..=2, any::<u16>(), any::<u16>(), proptest::bool::weighted(0.25)).prop_map(
+        |(layers, picks, ncmd, victim, actor, symlink)| ChmodCase {
+            config: gen::layered_config(&layers, &picks),
+            ncmd,
+            victim,
+            actor,
+            symlink,
+        },
+    )
+}
+
+pub fn check_chmod(case: &ChmodCase, w: usize) -> CheckResult {
+    let cfg = &case.config;
+    let mut env = Env::new(w);
+    env.install_config(cfg);
+    let commands: Vec<String> = (0..case.ncmd).map(|i| format!("c{}", i)).collect();
+    // the plan, as the model lays it out: per command, the layers of the configuration
+    let an = env.mr(&["analyze", "--target-groups"]);
+    let Some(av) = an.json() else {
+        return inconclusive(format!("analyze failed: {}", an.brief()));
+    };
+    let groups = crate::props::c01::parse_analyze(&av).map_err(|e| Violation::new("c06.analyze", e))?.groups.unwrap_or_default();
+    let mut slots: Vec<(usize, usize, String)> = vec![];
+    for ci in 0..case.ncmd {
+        for (gi, g) in groups.iter().enumerate() {
+            for t in g {
+                slots.push((ci, gi, t.clone()));
+            }
+        }
+    }
+    // victim: not in the very first group; actor: in a strictly earlier (command, group)
+    let later: Vec<usize> = (0..slots.len()).filter(|&i| (slots[i].0, slots[i].1) > (0, 0)).collect();
+    if later.is_empty() {
+        return Ok(CaseInfo::new(false).class("single-group").inv(env.invocations));
+    }
+    let v = later[pick(case.victim, later.len())];
+    let earlier: Vec<usize> = (0..slots.len()).filter(|&i| (slots[i].0, slots[i].1) < (slots[v].0, slots[v].1)).collect();
+    let a = earlier[pick(case.actor, earlier.len())];
+    let vfile = bb::simple_cmd_file(cfg, &slots[v].2, &commands[slots[v].0]);
+    let mut plan = BTreeMap::new();
+    for (i, (ci, _, t)) in slots.iter().enumerate() {
+        let file = bb::simple_cmd_file(cfg, t, &commands[*ci]);
+        if i == v && case.symlink {
+            env.install_command_symlink(&file, "tools/linked/victim.sh", true);
+        } else {
+            env.install_command(&file, true);
+        }
+        let mut b = Behavior::default();
+        if i == a {
+            let real = if case.symlink { "tools/linked/victim.sh".to_string() } else { vfile.clone() };
+            b.chmod = vec![(real, 0o644)];
+        }
+        plan.insert((file, t.clone()), b);
+    }
+    env.set_plan(&plan);
+    let mut args: Vec<&str> = vec!["run", "-c"];
+    for c in &commands {
+        args.push(c);
+    }
+    let out = env.mr(&args);
+    if out.timed_out {
+        return inconclusive("run timed out".into());
+    }
+    let obs = json!({"victim": slots[v], "actor": slots[a], "run": out.brief()});
+    let Some(doc) = out.json() else {
+        return viol_obs(
+            "c06.fatal.xbit-lost-during-run",
+            format!("run ended fatally (exit {:?}) when a command file had lost its x bit by the time of its turn", out.code),
+            obs,
+        );
+    };
+    let run = bb::parse_run(&doc).map_err(|e| Violation::new("c06.output", e))?;
+    if !run.failed || out.code != Some(1) {
+        return viol_obs(
+            "c06.xbit-lost.flag",
+            format!("failed={} exit={:?} although an executable lacked the x bit at its turn", run.failed, out.code),
+            obs,
+        );
+    }
+    let traces = env.traces();
+    let started: std::collections::BTreeSet<(String, String)> = traces.iter().map(|t| bb::trace_key(&env, t)).collect();
+    let vkey = (commands[slots[v].0].clone(), slots[v].2.clone());
+    if started.contains(&vkey) {
+        return viol_obs("c06.xbit-lost.started", "the command file without x bit was started".into(), obs);
+    }
+    for (ci, (cmd, gs)) in run.results.iter().enumerate() {
+        for (gi, g) in gs.iter().enumerate() {
+            for (t, r) in g {
+                let key = (cmd.clone(), t.clone());
+                if key == vkey && r.status == "success" {
+                    return viol_obs("c06.xbit-lost.success", "the command file without x bit is reported success".into(), obs);
+                }
+                if (ci, gi) > (slots[v].0, slots[v].1) {
+                    if r.status != "skipped" {
+                        return viol_obs("c06.later.not-skipped", format!("{:?} comes after the failing group but is reported {:?}", key, r.status), obs);
+                    }
+                    if started.contains(&key) {
+                        return viol_obs("c06.later.started", format!("{:?} comes after the failing group but its executable was started", key), obs);
+                    }
+                }
+            }
+        }
+    }
+    Ok(CaseInfo::new(true)
+        .class("xbit-lost-during-run")
+        .class_if(case.symlink, "symlinked-command-files")
+        .class_if(slots[v].0 > 0, "victim-in-later-command")
+        .inv(env.invocations))
+}
+
 pub fn run(ctx: &mut Ctx) {
     ctx.rule = "layered plan (1-4 groups x 1-4 targets x 1-3 commands) x 0-3 faults anywhere (exit 1..255, missing x bit, undefined) x --fail-on-undefined \
-x child sleeps x 0-3 internal delays (0-60 ms) at guarded points; plus a deterministic sweep (no fault, group size 2-12, one delay at one point). \
+x child sleeps x 0-3 internal delays (0-60 ms) at guarded points; plus a deterministic sweep (no fault, group size 2-12, one delay at one point); plus faults by signal (judged for truthfulness only) and command files whose x bit is removed by an earlier executable of the same run. \
 oracle: failed == (a counting fault is planned) == (exit status 1, else exactly 0; fatal exit is a violation), everything after the first failing group is skipped and \
 never started, success/error-code/undefined/not_executable/skipped entries agree with the helper traces. non-trivial = a counting fault with work planned after it, \
 or no fault with a delay on a shutdown/drain point and a group of >= 2; distinct by SHA-256"
@@ -461,9 +583,17 @@ or no fault with a delay on a shutdown/drain point and a group of >= 2; distinct
     ctx.drive_all("sweep", sweep_cases(), "no-fault delay sweep: group size x guarded point x delay", check);
     let n = ctx.n(300, 6000);
     ctx.drive("run", strategy, n, check);
+    let n2 = ctx.n(40, 800);
+    ctx.drive("xbit-lost-during-run", chmod_strategy, n2, check_chmod);
 }
 
 pub fn replay(ctx: &Ctx, label: &str, case: Value) -> Result<(), String> {
+    if label.contains("xbit") {
+        let c: ChmodCase = serde_json::from_value(case).map_err(|e| e.to_string())?;
+        let r = check_chmod(&c, 0);
+        ctx.replay_one(label, &c, r);
+        return Ok(());
+    }
     let c: Case = serde_json::from_value(case).map_err(|e| e.to_string())?;
     let r = check(&c, 0);
     ctx.replay_one(label, &c, r);
